@@ -189,7 +189,9 @@ def affine(node):
                 coeff, term = rc, t.left
         k = U(term)
         out[k] = out.get(k, 0) + s * coeff
-    return {k: v for k, v in out.items() if v != 0 or k == 1}
+    out = {k: v for k, v in out.items() if v != 0 or k == 1}
+    out.setdefault(1, 0)
+    return out
 
 
 def affine_eq(a, b):
